@@ -67,6 +67,12 @@ def toSlug (C : Codecs) (env : Env) (front : Text → Text) (v : Val) (incoming 
   | .ok t => .ok (slugText front t)
   | .error e => .error e
 
+/-- `to_slug(value, incoming=None, errors="strict")` as called with any subset of its optional
+    parameters (`none` = not passed) -/
+def callToSlug (C : Codecs) (env : Env) (front : Text → Text) (v : Val)
+    (incoming : Option (Option Name)) (errors : Option Policy) : Except Err Text :=
+  toSlug C env front v (argOr incoming defaultIncoming) (argOr errors defaultErrors)
+
 /-- a front end that meets the assumptions, used by the driver on ASCII-domain requests:
     non-ASCII characters are dropped (as `.encode("ascii", "ignore")` does), ASCII is kept -/
 def asciiFront (s : Text) : Text := s.filter (fun c => c.toNat < 128)
